@@ -38,6 +38,7 @@ pub fn assumptions() -> Vec<String> {
         "parameters without a documented range stay at their defaults and are not part of any verdict: iteration caps of logistic regression / Tweedie / FastICA / t-SNE, min_weight_split, min_weight_leaf, max_depth, SVR-nu regulariser c, k-means init method, kernels",
         "entry points on a rejected builder: Err text must equal Display of E::from(check_ref error) (the entry point's own From conversion); a panic or Ok is a failure; probes (counting Rng, counting Distance, counting model for Platt) must stay untouched where the builder takes one",
         "entry points on an accepted builder are compared with the checked form (Debug text or PartialEq of the fitted model, partition for hierarchical clustering whose ids follow HashMap order, sorted vocabulary for CountVectorizer, output shape only for t-SNE) only when every value lies in the per-parameter interval the tiny training run is exercised with (e.g. not with Platt minstep = 0 or SVM eps = 0, where training does not terminate in reasonable time); otherwise only check/check_ref are exercised",
+        "every entry point (fit, fit_with, transform, fit_vocabulary) is exercised twice: with the ordinary tiny dataset / batch and with an EMPTY one (zero samples, same columns; empty kernel, empty document array, empty word list) - signatures <row>:<entry>_empty:*. A rejected builder must answer the empty input with exactly the check_ref error too (checking comes before looking at the data); an accepted builder must do whatever check()?.entry(empty) does (degenerate model, error text, or panic - a panic of BOTH is accepted, most estimators do not guard against zero samples and that is not C04's subject)",
         "a training failure that depends on the data (power method not converged, Platt not converged, JL dimension larger than the feature count) is an accepted outcome when the unchecked builder and the checked form fail with the same text",
         "history cases: a builder is configured with a first assignment, one of {check_ref, check on a copy, the training entry point} runs on it (outcome ignored), then the same builder (or a clone taken afterwards) is re-configured through its setters; verdict, error text, checked value, builder equality and training result must equal those of a fresh builder configured directly with the second assignment. Parameters that can only be given to the constructor (k-means / GMM n_clusters, DBSCAN / OPTICS min_points) are equal in both assignments. The first training run only happens when the first assignment lies in the trainable intervals",
         "SVM history cases with an odd seed: the first life selects the other of the two mutually exclusive variants (Nu 0.4 resp. C weights (7, 3), always valid) with the solver eps / Platt values of the first assignment; the setter under test must displace it (checked value: the other variant must read back as None, as the setters' code and the 'either C or Nu' docs promise). The valid/invalid label of the first assignment of those cases refers to the row's own table and is approximate for the non-trivial count",
